@@ -28,7 +28,7 @@ ASSUMPTIONS = [
 ]
 REQUIRED = ["msolve.solve_judged", "msolve.key_decided", "msolve.key_undecided", "c02.route.z3", "c02.route.adv",
             "c02.route.native", "c02.tables_compared", "c02.unsat_programs", "c02.iter.ge3",
-            "c02.keys.none", "c02.keys.all", "c02.keys.some", "c02.chooser.stubborn", "c02.chooser.scatter"]
+            "c02.keys.none", "c02.keys.all", "c02.keys.some", "c02.chooser.stubborn", "c02.chooser.scatter", "c02.followup_solves"]
 CHOOSERS = ["first", "last", "random", "stubborn", "scatter"]
 NATIVE = ["sugar_extended", "csugar", "enigma_csp", "cspuz_core"]
 
@@ -50,7 +50,11 @@ def gen_case(rng):
     # loosen: mostly-satisfiable programs are the interesting ones for deduction
     if rng.random() < 0.5 and len(p["constraints"]) > 1:
         p["constraints"] = p["constraints"][:1]
-    return {"prog": p, "keys": keys}
+    case = {"prog": p, "keys": keys}
+    if rng.random() < 0.3:
+        g = progs.Gen(rng, p["decls"], depth=2)
+        case["followup"] = g.bool_(2)
+    return case
 
 
 def run_route(ctx, st, case, route, backend):
@@ -74,6 +78,18 @@ def run_route(ctx, st, case, route, backend):
         return None
     judged = st.last.get("judged")
     table = [vars_[i].sol for i in case["keys"]] if res else None
+    if case.get("followup") is not None and st.fired == fired0:
+        # history: same Solver object, one more constraint, solve again (and find_answer in between half of the time)
+        try:
+            if len(case["followup"]) % 2:
+                s.find_answer(backend=backend)
+            s.ensure(progs.build(case["followup"], vars_))
+            s.solve(backend=backend)
+            ctx.count("c02.followup_solves")
+        except OverflowError:
+            pass
+        except Exception as e:
+            ctx.violation(f"solve-raises:{route.split(':')[0]}:{type(e).__name__}", f"second solve via {route} raised {e!r}", ctx.current_case)
     ctx.case([p, case["keys"], route], nontrivial=bool(judged and res and case["keys"]))
     if st.fired != fired0:
         return None
